@@ -469,9 +469,13 @@ class Prop(fw.PropBase):
                 n = 2 if not si['single'] else 1
                 seqs = [self.rstr('ACGT', 70, 110) for _ in range(n)]
                 if rng.random() < 0.15:
-                    seqs = [s.replace('A', 'N', 1) for s in seqs]
+                    seqs = [s[:40] + s[40:].replace('A', 'N', 1) for s in seqs]
+                hd1 = bool(si['barcodes']) and rng.random() < 0.25
                 if si['barcodes']:
                     bc = rng.choice(si['barcodes'])
+                    if hd1:      # one sequencing error in the cell barcode, corrected by the -hd 1 expansion
+                        i = rng.randrange(len(bc))
+                        bc = bc[:i] + rng.choice([x for x in 'ACGT' if x != bc[i]]) + bc[i + 1:]
                     pos = 0
                     for r, st, ln in si['slices']:
                         if r < n:
@@ -499,6 +503,8 @@ class Prop(fw.PropBase):
                 nf = len(re.split('[: ]', h.replace('::', '')))
                 c = {'f': 'chain', 'strategy': name, 'parser': rng.random() < (0.85 if nf == 11 else 0.15), 'library': lib,
                      'records': [[hs[i], seqs[i], '+', quals[i]] for i in range(n)]}
+                if hd1:
+                    c['ctx'], c['parser'] = 'hd1', True
                 if rng.random() < 0.3:     # long library names: first header of exactly 248..258 characters
                     c['target_len'] = rng.randint(248, 258)
                 cases.append(c)
@@ -708,6 +714,8 @@ class Prop(fw.PropBase):
         forms = {}
         for c, r in accepted:
             k = form(c['records'][0][0]) + ('' if c.get('parser', True) else '/no-index-parser')
+            if c.get('ctx') == 'hd1':
+                self.n_hd1 = getattr(self, 'n_hd1', 0) + 1
             forms[k] = forms.get(k, 0) + 1
         refused = sum(1 for c, r in accepted for h in r['headers'] if 'error' in h)
         self.cov.update({
@@ -762,6 +770,22 @@ class Prop(fw.PropBase):
             self.dis = dis
             raise fw.Broken('correspondence', 'model and implementation disagree on %d cases; first: %s'
                             % (len(dis), json.dumps(dis[0])[:1200]))
+        # the statement of C04_end_to_end evaluated on the real chain against the ORIGINAL input reads
+        tagdef = {t[0]: (t[1], t[2]) for t in self.reflected['tags']}
+        nspec, orig_rq, corrected = 0, 0, 0
+        for c, r in zip(cases, impl):
+            if c['f'] == 'chain' and 'stores' in r:
+                nspec += 1
+                w = self.chain_violation(c, r, tagdef, self.strategy_info)
+                st = self.chain_stats
+                orig_rq += st[0]
+                corrected += st[1]
+                if w:
+                    self.cov['specification_on_chain'] = {'chains': nspec, 'violation': w['what'][:300]}
+                    raise fw.Broken('specification', w['what'])
+        self.cov['specification_on_chain'] = {
+            'chains': nspec, 'reads_with_RQ_and_RX_compared_to_the_original_input_read': orig_rq,
+            'reads_with_corrected_barcode(bc != BC)': corrected, 'violations': 0}
 
     def sample_idx(self, cases):
         out, seen = [], set()
@@ -879,6 +903,7 @@ class Prop(fw.PropBase):
 
     def chain_violation(self, c, r, tagdef, info):
         letters = _string.ascii_letters
+        self.chain_stats = [0, 0]
         for j, st in enumerate(r['stores']):
             if st is None or not self.spec_wf(st):
                 continue
@@ -909,10 +934,19 @@ class Prop(fw.PropBase):
                         exp[k] = ''.join(chr(letters.index(x) + 33) for x in v) if all(x in letters for x in v) else None
                     else:
                         exp[k] = sf(v)
-                u = info.get(c['strategy'], {}).get('umi')
-                if u and 'RQ' in d and u[0] < len(c['records']) and c['records'][u[0]][1][u[1]:u[1] + u[2]] == d.get('RX'):
+                si = info.get(c['strategy'], {})
+                u = si.get('umi')
+                if u and u[0] < len(c['records']):
+                    useq = c['records'][u[0]][1][u[1]:u[1] + u[2]]
                     q = c['records'][u[0]][3][u[1]:u[1] + u[2]]
-                    exp['RQ'] = ''.join(chr(min(max(ord(x), 33), 84)) for x in q)   # the original characters, saturated
+                    # strategies that run UmiBarcodeDemuxMethod.demultiplex unchanged must restore the UMI of the input
+                    # read; the others are held to it when the stored RX is that slice
+                    if si.get('plain') or ('RQ' in d and useq == d.get('RX')):
+                        exp['RX'] = sf(useq)
+                        exp['RQ'] = ''.join(chr(min(max(ord(x), 33), 84)) for x in q)   # original characters, saturated
+                        self.chain_stats[0] += 1
+                if 'bc' in d and 'BC' in d and d['bc'] != d['BC']:
+                    self.chain_stats[1] += 1
                 if 'bi' in d and 'LY' in d:
                     exp['SM'] = sf(d['LY']) + '_' + sf(d['bi'])
                 if 'aA' in d and 'BC' in d and 'QT' not in d:
